@@ -562,8 +562,14 @@ class RpcWorld(World):
                 elif tag not in ("comm", "other"):
                     ctx.violate("unexpected-outcome", "batch:" + tag, "call %d batch -> %r" % (rec["i"], out))
                 for j in range(rec["n"]):
-                    if ex.get("%s.%d" % (tok, j), 0) > 1:
-                        ctx.violate("too-many-executions", "batch", "batch member ran %d times" % ex.get("%s.%d" % (tok, j), 0))
+                    # (the statement allows 1+N executions with N retries for every kind of call; today's client never resends a
+                    #  batch, but one that did so within its retry budget would still keep the property)
+                    if ex.get("%s.%d" % (tok, j), 0) > 1 + retries:
+                        ctx.violate("too-many-executions", "batch", "batch member ran %d times with a retry budget of %d"
+                                    % (ex.get("%s.%d" % (tok, j), 0), retries))
+                    if tag == "ok" and retries == 0 and ex.get("%s.%d" % (tok, j), 0) != 1:
+                        ctx.violate("returned-call-not-once", "batch", "batch %d returned but member %d ran %d times"
+                                    % (rec["i"], j, ex.get("%s.%d" % (tok, j), 0)))
             elif k == "stream-open":
                 if tag not in ("ok", "comm", "other"):
                     ctx.violate("unexpected-outcome", "stream-open:" + tag, "call %d stream -> %r" % (rec["i"], out))
